@@ -19,12 +19,12 @@ E3 = ((0, 1, 0), (1, 0, 0), (1, 1, 1))
 E4 = ((0, 1, 0), (1, 0, 0), (1, 1, 1), (0, 2, 1))
 PASSIVE = ((0, 1), (1, 0), (0, 2), (1, 1))
 BOUNDS = {
-    "quick": {"alphabet": "E3: (0,1,X) (1,0,X) (1,1,Y)", "K_per_bucket": {"A": 2, "B": 1}, "buckets": ["passive(4 events)", "A", "B"]},
+    "quick": {"alphabet": "E3: (0,1,X) (1,0,X) (1,1,Y)", "K_per_bucket": {"A": 2, "B": 1}, "buckets": ["passive(4 events)", "A", "B"], "bucket_ids": "wnd / 'wnd ' / Wnd (distinct, equal up to case and surrounding whitespace)"},
     "thorough": {"alphabet": "E4: (0,1,X) (1,0,X) (1,1,Y) (0,2,Y)", "K_per_bucket": 2, "buckets": ["passive(4 events)", "A", "B"]},
 }
 RULE = (
     "BFS to fixpoint over building histories on buckets A and B (insert, bulk pair, upsert, replace, replace_last, delete with own ids; <=K live events each; instants coincide across buckets); "
-    "in every reachable state every probe op is applied to A: insert, single insert carrying an id, bulk upsert, mixed bulk, replace, delete with each id present anywhere in the database or never-existed, replace_last, update_bucket per field, delete_bucket; "
+    "in every reachable state every probe op is applied to A: insert, single insert carrying an id, bulk upsert, mixed bulk, replace, delete with each id present anywhere in the database or never-existed, replace / replace_last whose replacement object carries such an id, replace_last, update_bucket per field, delete_bucket; "
     "plus 8 REJECTED operations (unserialisable event data in insert/bulk/upsert/replace/replace_last, update without fields, update/delete of an absent bucket) issued while the last write of the history is still unobserved; "
     "non-trivial = probes carrying an id that belongs to another bucket, or probes whose instants coincide with an event of another bucket"
 )
@@ -33,7 +33,10 @@ ASSUMPTIONS = [
     "memory ids are per bucket, so another bucket's id is often also an A id there (legitimately affecting A only)",
 ]
 _G = {}
-BUCKETS = ("A", "B")
+# the three ids are legal, distinct, and equal up to case / surrounding whitespace (seeded: an id
+# "normalised" on one path only made two buckets alias)
+A_, B_, P_ = "wnd", "wnd ", "Wnd"
+BUCKETS = (A_, B_)
 NEVER = BL.NEVER_ID
 
 
@@ -45,10 +48,10 @@ def _E():
 def setup(backend, wdir):
     emb = _G["emb"]
     ds = S.fresh(backend, wdir)
-    S.mk_bucket(ds, "passive")
-    ds["passive"].insert([emb.ev(s, d, _G["lab"][2]) for s, d in PASSIVE])
-    S.mk_bucket(ds, "A")
-    S.mk_bucket(ds, "B")
+    S.mk_bucket(ds, P_)
+    ds[P_].insert([emb.ev(s, d, _G["lab"][2]) for s, d in PASSIVE])
+    S.mk_bucket(ds, A_)
+    S.mk_bucket(ds, B_)
     return ds
 
 
@@ -75,9 +78,9 @@ FAULT_PROBES = ("ins_bad", "bulk_bad", "ups_bad", "rep_bad", "repl_bad", "update
 def do_fault_probe(ds, ms, name):
     """operations on A (or on an absent bucket) that are rejected: they may raise, and must not touch other buckets"""
     emb = _G["emb"]
-    a = ds["A"]
+    a = ds[A_]
     bad = emb.ev(1, 1, {"bad": _Unserialisable()})
-    ids = ms["A"].ids()
+    ids = ms[A_].ids()
     try:
         if name == "ins_bad":
             a.insert(bad)
@@ -91,7 +94,7 @@ def do_fault_probe(ds, ms, name):
         elif name == "repl_bad":
             a.replace_last(bad)
         elif name == "update_nothing":
-            ds.update_bucket("A")
+            ds.update_bucket(A_)
         elif name == "delete_absent_bucket":
             ds.delete_bucket("no-such-bucket")
         elif name == "update_absent_bucket":
@@ -117,11 +120,11 @@ def build_ops(model, E, K):
 def probe_ops(ds, ms, E):
     """probes on A that the building alphabet does not already contain"""
     ids = []
-    for i in ms["A"].ids():
+    for i in ms[A_].ids():
         ids.append(("own", i))
-    for i in ms["B"].ids():
+    for i in ms[B_].ids():
         ids.append(("B", i))
-    for t in sorted(S.dump_bucket(ds, "passive"))[:2]:
+    for t in sorted(S.dump_bucket(ds, P_))[:2]:
         ids.append(("passive", t[0]))
     ids.append(("never", NEVER))
     ops = []
@@ -132,6 +135,11 @@ def probe_ops(ds, ms, E):
             ops.append(("ins1id", cls, i, e))
         ops.append(("mix", cls, i, E[0], E[1]))
         ops.append(("del", cls, i))
+        if cls != "own" and ms[A_].ids():
+            # the ADDRESSED id is A's own, but the replacement object CARRIES the other id (an event that
+            # was read from the other bucket): seeded peewee.replace checked one id and wrote the other
+            ops.append(("rep_carry", cls, i, E[0], ms[A_].ids()[0]))
+            ops.append(("repl_carry", cls, i, E[1 % len(E)]))
     for e in E:
         ops.append(("repl", "none", None, e))
         ops.append(("ins", "none", None, e))
@@ -144,7 +152,7 @@ def probe_ops(ds, ms, E):
 
 def do_probe(ds, op):
     emb = _G["emb"]
-    a = ds["A"]
+    a = ds[A_]
     k = op[0]
     try:
         if k == "ups":
@@ -157,6 +165,10 @@ def do_probe(ds, op):
             a.insert([emb.ev(*op[3], id=op[2]), emb.ev(*op[4])])
         elif k == "del":
             a.delete(op[2])
+        elif k == "rep_carry":
+            a.replace(op[4], emb.ev(*op[3], id=op[2]))
+        elif k == "repl_carry":
+            a.replace_last(emb.ev(*op[3], id=op[2]))
         elif k == "repl":
             a.replace_last(emb.ev(*op[3]))
         elif k == "ins":
@@ -166,9 +178,9 @@ def do_probe(ds, op):
         elif k == "update_bucket":
             f = op[3]
             kw = {"type_id" if f == "type" else f: ({"new": [1, {"x": "y"}]} if f == "data" else "new-" + f)}
-            ds.update_bucket("A", **kw)
+            ds.update_bucket(A_, **kw)
         elif k == "delete_bucket":
-            ds.delete_bucket("A")
+            ds.delete_bucket(A_)
         return "ok"
     except Exception as e:
         return "raised-" + type(e).__name__
@@ -185,7 +197,7 @@ def _expand(hist):
     self_canon = S.canon_full(ds)
     succ = []
     # building ops on A and B (frame-checked too)
-    blds = [(bid, op) for bid in BUCKETS for op in build_ops(ms[bid], E, K if bid == "A" else c["KB"])]
+    blds = [(bid, op) for bid in BUCKETS for op in build_ops(ms[bid], E, K if bid == A_ else c["KB"])]
     probes = probe_ops(ds, ms, E)
     other_instants = {b: {(v[0], v[0] + v[1]) for v in ms[b].live.values()} for b in BUCKETS}
     for bid, op in blds:
@@ -210,11 +222,11 @@ def _expand(hist):
         if ds is None or S.canon_full(ds) != self_canon or raw0 != (S.raw_rows(ds), S.raw_buckets(ds)):
             ds, mm = replay(backend, wdir, hist)
             raw0 = (S.raw_rows(ds), S.raw_buckets(ds))
-            f0 = frame(ds, "A")
+            f0 = frame(ds, A_)
         else:
             u.hist["probe_store_reused"] += 1
         res = do_probe(ds, op)
-        f1 = frame(ds, "A")
+        f1 = frame(ds, A_)
         u.transitions += 1
         u.evaluations += 1
         u.traces += 1
@@ -223,7 +235,7 @@ def _expand(hist):
         if not nt and len(op) > 3 and isinstance(op[3], tuple):
             ee = _G["emb"].ev(*op[3])
             iv = (S.us_of(ee.timestamp), S.us_of(ee.timestamp) + S.dus_of(ee.duration))
-            nt = any(iv[1] == o[1] for o in other_instants["B"])
+            nt = any(iv[1] == o[1] for o in other_instants[B_])
         if nt:
             u.nontrivial += 1
         if f0 != f1:
@@ -239,11 +251,11 @@ def _expand(hist):
     # on the lazily committing store): the frame expected is the one of the fully observed twin
     if hist:
         dsf, msf = replay(backend, wdir, hist)
-        f_want = frame(dsf, "A")
+        f_want = frame(dsf, A_)
         for name in FAULT_PROBES:
             ds2, mm2 = replay(backend, wdir, hist, skip_last_read=True)
             res = do_fault_probe(ds2, msf, name)
-            f1 = frame(ds2, "A")
+            f1 = frame(ds2, A_)
             u.transitions += 1
             u.evaluations += 1
             u.traces += 1
@@ -293,17 +305,17 @@ def run_case(ctx, case):
     hist = tuple((b, BL.tup(o)) for b, o in case["history"])
     ds, mm = replay(backend, ctx.wdir(), hist)
     if "fault_probe" in case:
-        f_want = frame(ds, "A")
+        f_want = frame(ds, A_)
         ds2, _ = replay(backend, ctx.wdir(), hist, skip_last_read=True)
         res = do_fault_probe(ds2, mm, case["fault_probe"])
-        f1 = frame(ds2, "A")
+        f1 = frame(ds2, A_)
         chg = [b for b in f_want if f_want[b] != f1.get(b)]
         return {"fault_probe": case["fault_probe"], "result": res, "expected_other_buckets": f_want, "observed": f1, "violations": [["other-bucket-changed", b] for b in chg]}
     if "probe" in case:
         op = BL.tup(case["probe"])
-        f0 = frame(ds, "A")
+        f0 = frame(ds, A_)
         res = do_probe(ds, op)
-        f1 = frame(ds, "A")
+        f1 = frame(ds, A_)
     else:
         bid = case["target_bucket"]
         op = BL.tup(case["build_op"])
